@@ -173,14 +173,17 @@ PROPS = {
         "theorems": ["Hctl.C06.build_wf", "Hctl.C06.build_str", "Hctl.C06.mkAtom_wf", "Hctl.C06.mkUnary_wf", "Hctl.C06.mkBinary_wf",
                      "Hctl.C06.mkHybrid_wf", "Hctl.C06.canonToks_derives", "Hctl.C06.parse_canonToks",
                      "Hctl.Lex.tokenize_render", "Hctl.C06.print_parse_roundtrip", "Hctl.C06.print_parse_roundtrip_plain",
-                     "Hctl.C06.render_injective", "Hctl.C06.asciiClass_ok"],
-        "ks": ["k3", "k2", "k4"],
+                     "Hctl.C06.render_injective", "Hctl.C06.asciiClass_ok", "Hctl.C06.parsed_tree_roundtrip",
+                     "Hctl.C06.preprocessed_tree_roundtrip", "Hctl.parsed_treeOK", "Hctl.rename_treeOK"],
+        "ks": ["k3", "k2", "k4", "k1"],
         "spec_tied": ["k3"],
-        "full": False,
-        "not_proved": "the round trip is proved for every tree over valid identifiers (TreeOK, PropNamesOK) under character-class facts "
-                      "(CharsOK: the 17 special characters are neither name characters nor white space except the blank, the letters of "
-                      "the keywords are alphanumeric; an ASCII instance is proved); that parser output and preprocessing output satisfy "
-                      "TreeOK is not yet proved in Lean and is exercised by the round-trip oracle (K3, K2, K4)",
+        "full": True,
+        "not_proved": "nothing of the statement on the model: the round trip is proved for every tree over valid identifiers (TreeOK, "
+                      "PropNamesOK), every tree the tokenizer+parser produce from any text (parsed_tree_roundtrip) and every "
+                      "preprocessed tree (preprocessed_tree_roundtrip), under the character-class facts CharsOK (the 17 special "
+                      "characters are neither name characters nor white space except the blank, the letters of the keywords are "
+                      "alphanumeric, no white-space character is alphanumeric; an ASCII instance is proved and K1 checks the facts "
+                      "against Rust's std for every scalar value on every run)",
         "rule": "K3: all trees with <= 4 (thorough 5) nodes over all node kinds + random deep trees over 18 identifier shapes; every "
                 "node's stored text/height vs the independent renderer; oracle: to_string -> parse_extended_formula -> equality",
         "assumptions": ["identifiers are valid names that do not lex as operators/constants (PropNamesOK and the harness' name pool)"],
